@@ -249,13 +249,10 @@ func runC05(p *Prog, r *Report) {
 	// ---- R3 shielding ----
 	for _, ret := range Returns(cb.admit) {
 		k, isC := constBool(ReturnOperand(ret, 0))
-		if !isC {
-			r.Undecided("C05.R3", tn+": admission routine returns a constant", p.InstrPos(ret), "non-constant admission result")
+		if isC && k {
 			continue
 		}
-		if k {
-			continue
-		}
+		// constant false, or a computed result (e.g. `return !rc.allowRequest()`): the request may be let through here
 		set := cb.ts.RetSets[ret]
 		if _, analysed := cb.ts.RetSets[ret]; !analysed {
 			r.Undecided("C05.R3", tn+": admission routine analysed", p.InstrPos(ret), "admission routine does not take the exclusive lock (no typestate)")
@@ -926,7 +923,12 @@ func c18FunctionMap(p *Prog, r *Report, funcs map[string]*ssa.Function) {
 			s := e.String()
 			switch name {
 			case "NetworkErrorRatio":
-				if !strings.HasPrefix(s, "call:memmetrics.RTMetrics.NetworkErrorRatio(fld(p0).metrics)") {
+				// resolved on the SSA itself (the metrics method may or may not be inlinable)
+				call, ok := stripConv(v).(*ssa.Call)
+				okN := ok && call.Common().StaticCallee() != nil && call.Common().StaticCallee().Name() == "NetworkErrorRatio" &&
+					recvNamed(call.Common().StaticCallee()) != nil && recvNamed(call.Common().StaticCallee()).Obj().Name() == "RTMetrics" &&
+					len(call.Common().Args) == 1 && strings.HasSuffix(BuildExpr(p, call.Common().Args[0], nil).String(), "fld(p0).metrics")
+				if !okN {
 					okAll, why = false, s
 				}
 			case "ResponseCodeRatio":
